@@ -121,8 +121,10 @@ def _shape(ctx, e, can_fail, shape=None):
     return None
 
 
-def systematic():
-    """Yields (sexpr, feats, shape): all operators x operand values x contexts with traced / failing operands."""
+def systematic(rng=None):
+    """Yields (sexpr, feats, shape): all operators x operand values x contexts with traced / failing operands.
+    With `rng` (quick tier) the value pairs of the binary operators are reduced to the four zero / non-zero
+    combinations, the non-zero value drawn per operator and context; without it all 16 pairs are used."""
     for ctx in CONTEXTS:
         def case(e, feats, can_fail=False, shape=None, pre=""):
             if ctx == "elem-store" and e.startswith("(cond"):
@@ -130,10 +132,14 @@ def systematic():
             return program(ctx, e, pre=pre), feats, _shape(ctx, e, can_fail, shape)
         # binary operators: both operands traced, all value combinations
         for op in BINOPS:
-            for a in VALS:
-                for b in VALS:
+            if rng is None:
+                pairs = [(a, b) for a in VALS for b in VALS]
+            else:
+                na, nb = rng.choice([1, 2, -1]), rng.choice([1, 2, -1])
+                pairs = [(0, 0), (0, nb), (na, 0), (na, nb)]
+            for a, b in pairs:
                     if op in ("<<", ">>") and b < 0:
-                        continue
+                        b = 1
                     e = "(bin %s %s %s)" % (op, tr(101, a), tr(102, b))
                     yield case(e, ("bin" + op, ctx, "traced"), can_fail=(op in "/%" and b == 0))
             # a failing operand ends the evaluation: nothing to its right is evaluated
@@ -286,14 +292,12 @@ class TreeGen:
 
 def random_program(rng, avoid=True, multi_index=False):
     g = TreeGen(rng, avoid=avoid, multi_index=multi_index)
-    ctxs = [c for c in CONTEXTS if avoid is False or c not in ()]
-    ctx = rng.choice(ctxs)
+    ctx = rng.choice(CONTEXTS)
     e = g.expr(rng.choice([1, 2, 2, 3]))
     if ctx == "elem-store" and (avoid or e.startswith("(cond")):
         e = "(bin + %s 0)" % e          # finding C03-elem-assign-call-twice / C01-elem-assign-ternary: never a bare call / ?:
-    if ctx == "print" or ctx == "print2":
-        if avoid and "failing-operand" in g.feats:
-            ctx = "init"                # finding C01-println-retry: println re-evaluates a failing argument
+    if ctx in PRINT_CTX and avoid and (("(call %d " % F_BAD) in e or "(bin / " in e or "(bin % " in e):
+        ctx = "init"                    # finding C03-println-retry: println re-evaluates an argument that failed
     return program(ctx, e), ("random", ctx) + tuple(sorted(g.feats))
 
 
